@@ -26,6 +26,8 @@ type opC19 struct {
 	Force  bool
 	Create bool
 	ViaCLI bool // run through klog.Run with real flag parsing
+	// Answer, for clear: nil = --yes; otherwise no --yes and this is typed at the confirmation prompt
+	Answer *string `json:",omitempty"`
 }
 
 type caseC19 struct {
@@ -79,6 +81,10 @@ func genC19(t *rapid.T, _ *evid.Rec) caseC19 {
 			op.Kind, op.Name = "unset", pickName()
 		case k == 12:
 			op.Kind = "clear"
+			if rapid.IntRange(0, 1).Draw(t, "askConfirmation") == 1 {
+				a := rapid.SampledFrom([]string{"y", "Y", "n", "N", ""}).Draw(t, "answer")
+				op.Answer = &a
+			}
 		case k < 15:
 			op.Kind = "list"
 		case k < 17:
@@ -86,7 +92,7 @@ func genC19(t *rapid.T, _ *evid.Rec) caseC19 {
 		default:
 			op.Kind, op.Name = "resolve", pickName()
 		}
-		op.ViaCLI = rapid.IntRange(0, 3).Draw(t, "viaCLI") == 0 && !strings.HasPrefix(op.Name, "-")
+		op.ViaCLI = rapid.IntRange(0, 3).Draw(t, "viaCLI") == 0 && !strings.HasPrefix(op.Name, "-") && op.Answer == nil
 		c.Ops = append(c.Ops, op)
 	}
 	// every history ends with a read
@@ -223,7 +229,9 @@ func checkC19(c caseC19) (Outcome, error) {
 			case "unset":
 				outText, err = h.RunE(&cli.BookmarksUnset{Name: op.Name})
 			case "clear":
-				outText, err = h.RunE(&cli.BookmarksClear{Yes: true})
+				h.answer = op.Answer
+				outText, err = h.RunE(&cli.BookmarksClear{Yes: op.Answer == nil})
+				h.answer = nil
 			case "list":
 				r := h.Run(&cli.BookmarksList{})
 				outText = r.Out
@@ -289,7 +297,11 @@ func checkC19(c caseC19) (Outcome, error) {
 			if err != nil {
 				return fail("op %d: bookmarks clear failed: %v", oi, err)
 			}
-			m = map[string]string{}
+			if op.Answer == nil || strings.EqualFold(*op.Answer, "y") {
+				m = map[string]string{}
+			} else {
+				out.Label("clear-declined") // answered n/N/nothing at the prompt: nothing may be removed
+			}
 		case "list":
 			if err != nil {
 				return fail("op %d: bookmarks list failed: %v", oi, err)
